@@ -70,6 +70,9 @@ func intrinsicFor(fn *ssa.Function, name string) externalFn {
 		}
 		return nil
 	}
+	if fn.Synthetic == "package initializer" || strings.HasPrefix(fn.Name(), "init#") {
+		return nil // initialisers of stubbed packages still run (function-typed globals such as log.G)
+	}
 	for _, p := range stubPkgPrefixes {
 		if pp == p || strings.HasPrefix(pp, p) && (strings.HasSuffix(p, "/") || strings.HasPrefix(pp[len(p):], "/")) {
 			return func(fr *frame, args []value) value {
@@ -172,7 +175,11 @@ func init() {
 			return nil
 		},
 		"Native": func(fr *frame, a []value) value { return fr.i.mkBool(false) },
-		"Tier":   func(fr *frame, a []value) value { return fr.i.mkInt(types.Int, int64(fr.i.cfg.Tier)) },
+		"EngineOnlyReplay": func(fr *frame, a []value) value {
+			fr.i.ex.engineOnly = fr.i.argStr(a[0], "reason")
+			return nil
+		},
+		"Tier": func(fr *frame, a []value) value { return fr.i.mkInt(types.Int, int64(fr.i.cfg.Tier)) },
 		"Replace": func(fr *frame, a []value) value {
 			i := fr.i
 			name := i.argStr(a[0], "function name")
